@@ -1,7 +1,7 @@
 """C12 -- structured multi-line fields round-trip as records and can always be dumped."""
 import ast
 
-from .. import rx, strlang, cfg
+from .. import rx, strlang, cfg, normalize
 from . import common
 from ..core import AnalysisError, norm, walk_no_nested
 from ..strlang import Slot, ListOf, Obj, Opaque
@@ -392,6 +392,117 @@ def r2_roundtrip(rep, src, M):
         raise AnalysisError('fewer than two writer forms (single record, record list) were analysed')
 
 
+def _follow_pred_lang(mod, test, var, alpha, depth=0):
+    """language of the texts `var` for which `test` holds, following one-expression predicate methods of the module's classes
+    (self.m(var) / cls.m(var) / Class.m(var)) and `var.count(c)` (truthy: the text contains c)"""
+    import re as _re
+    if depth > 4:
+        raise AnalysisError('predicate helpers nested too deeply: %s' % norm(test)[:60])
+
+    def atom(t):
+        if isinstance(t, ast.Call) and isinstance(t.func, ast.Attribute) and len(t.args) == 1 and not t.keywords and norm(t.args[0]) == var \
+                and isinstance(t.func.value, ast.Name):
+            owner = t.func.value.id
+            cands = [fn for q, fn in mod.funcs.items() if q.endswith('.' + t.func.attr) and (owner in ('self', 'cls') or q.split('.')[0] == owner)]
+            for fn in cands:
+                body = [st for st in fn.node.body if not (isinstance(st, ast.Expr) and isinstance(st.value, ast.Constant))]
+                if len(body) == 1 and isinstance(body[0], ast.Return) and body[0].value is not None:
+                    ps = [a_.arg for a_ in fn.node.args.args if a_.arg not in ('self', 'cls')]
+                    if len(ps) == 1:
+                        return _follow_pred_lang(mod, body[0].value, ps[0], alpha, depth + 1)
+        if isinstance(t, ast.Call) and isinstance(t.func, ast.Attribute) and t.func.attr == 'count' and norm(t.func.value) == var and len(t.args) == 1 \
+                and isinstance(t.args[0], ast.Constant) and isinstance(t.args[0].value, str) and t.args[0].value:
+            return rx.regex_lang('(?s:.*)' + _re.escape(t.args[0].value) + '(?s:.*)', 0, 'fullmatch', alpha=alpha)
+        return None
+    return strlang.pred_lang(test, var, alpha, atom=atom)
+
+
+def r5_container_kind(rep, src, M):
+    """the reader decides from the text of a structured field whether it holds a list of records or a single record; the writer
+    lays a list out on continuation lines and a single record on the field line.  The two must agree for every value the writer
+    can produce -- the empty list included, which is written as the empty text."""
+    f, variants = extract_writer(src, rep)
+    init = src.func(MOD + ':_multivalued.__init__')
+    rep.saw_func(init)
+    mod = src.mod(MOD)
+    alpha = M.alpha
+    loops = [st for st in init.node.body if isinstance(st, ast.For)]
+    if len(loops) != 1:
+        raise AnalysisError('%s: loop over the structured fields not found' % init.site)
+    from .. import paths as P
+    fnode, _ = normalize.inline_helpers(init)
+    loop = [st for st in fnode.body if isinstance(st, ast.For)][0]
+    list_lang = None
+    anyl = rx.regex_lang('(?s:.*)', 0, 'fullmatch', alpha=alpha)
+    for p_ in P.Enumerator(P.Folder()).run(loop.body, [P.Path()]):
+        stores = [e_ for e_ in p_.events if e_[0] == 'store' and e_[1].startswith('self[')]
+        if not stores:
+            continue
+        val = stores[0][2]
+        is_list = isinstance(val, ast.List) or (isinstance(val, ast.Call) and norm(val.func) == 'list')
+        lang = anyl
+        not_text = False
+        for t_, pol in p_.conds:
+            if "__raised__" in norm(t_):
+                continue
+            if isinstance(t_, ast.Call) and norm(t_.func) == 'isinstance' and len(t_.args) == 2 and norm(t_.args[1]) in ('str', '(str,)', 'Text'):
+                not_text = not_text or not pol      # the value is text on this path / this path is for values that are not text
+                continue
+            names = {norm(n_) for n_ in ast.walk(t_) if isinstance(n_, ast.Subscript)}
+            var = next(iter(names)) if len(names) == 1 else None
+            if var is None:
+                raise AnalysisError('%s: condition %s is not a predicate on the field text' % (init.site, norm(t_)[:60]))
+            pl = _follow_pred_lang(mod, t_, var, alpha)
+            lang = lang.intersect(pl if pol else pl.complement())
+        if is_list and not not_text:
+            list_lang = lang if list_lang is None else list_lang.union(lang)
+    if list_lang is None:
+        raise AnalysisError('%s: no path stores a list for a structured field' % init.site)
+    dom = M.domain('')
+    token = M.pat(r'[^\s]+').intersect(dom)
+    base = {'key': M.pat(KEY_RE), 'token': token, 'fieldname': M.pat('x')}
+    n = 0
+    for (single, shown), vterm in variants:
+        vlang = strlang.TBuilder(alpha, [], lambda p: base[p], {}).lang(vterm)
+        if vlang.is_empty():
+            continue
+        n += 1
+        kind = 'single record' if single else 'record list'
+        w = (vlang.intersect(list_lang) if single else vlang.minus(list_lang)).witness()
+        what = '%s is read back as a %s' % (kind, kind)
+        if w is None:
+            rep.ok('C12.R5', init.site, what, 'every text the writer produces for a %s is classified as one by the reader' % kind)
+        else:
+            rep.fail('C12.R5', init.site, what, 'the writer lays a %s out as %r%s, which the reader takes for a %s: the value does not come back%s' % (
+                kind, w, ' (the empty list)' if not single and w == '' else '', 'record list' if single else 'single record',
+                ' (an empty list becomes an empty record, which cannot be dumped again)' if not single and w == '' else ''), detail={'witness': w}, where=init.where)
+    if n < 2:
+        raise AnalysisError('fewer than two writer forms analysed')
+    # a paragraph can also be built from a mapping (Deb822(mapping)): a structured field then already holds records, and the text
+    # operations of the conversion must not be applied to it -- every use of the field value as text is dominated by a test that it
+    # is text
+    g = cfg.CFG(init.node)
+    loop0 = loops[0]
+    binds = [st for st in ast.walk(loop0) if isinstance(st, ast.Assign) and len(st.targets) == 1 and isinstance(st.targets[0], ast.Name)
+             and isinstance(st.value, ast.Subscript) and norm(st.value.value) == 'self']
+    if len(binds) != 1:
+        raise AnalysisError('%s: the field value is not bound to one local' % init.site)
+    cv = binds[0].targets[0].id
+    text_uses = [c for c in ast.walk(loop0) if isinstance(c, ast.Call) and (
+        (isinstance(c.func, ast.Attribute) and norm(c.func.value) == cv and c.func.attr in ('splitlines', 'split', 'strip', 'count', 'lstrip', 'rstrip', 'partition'))
+        or (isinstance(c.func, ast.Attribute) and c.func.attr in ('is_multi_line', 'is_single_line') and [norm(a_) for a_ in c.args] == [cv]))]
+    if not text_uses:
+        raise AnalysisError('%s: no text operation on the field value found' % init.site)
+    tests = [n_ for n_ in g.nodes if n_.kind == 'test' and 'isinstance(%s' % cv in norm(n_.ast)]
+    unguarded = [c for c in text_uses if not any(g.dominates(t_.id, g.node_for(c).id) for t_ in tests)]
+    if unguarded:
+        rep.fail('C12.R5', init.site, 'records given to the constructor are kept', 'line %d applies `%s` to the value of a structured field without testing that it is text: a '
+                 'paragraph constructed from a mapping whose field already holds records (Dsc(parsed), Release({"SHA256": [records]})) raises AttributeError'
+                 % (unguarded[0].lineno, norm(unguarded[0])[:50]), where='%s:%d' % (init.module.relpath, unguarded[0].lineno))
+    else:
+        rep.ok('C12.R5', init.site, 'records given to the constructor are kept', '%d text operations, all behind isinstance(%s, ...)' % (len(text_uses), cv))
+
+
 def unroll_one_token(term):
     """copy of `term` in which exactly one occurrence of Slot('token') inside the loops is renamed 'token!'
     (one extra iteration of each enclosing repeat is unrolled so the renamed slot sits outside repeats)"""
@@ -510,21 +621,8 @@ def r2b_same_table(rep, src):
         rep.ok('C12.R2', fw.site, 'writer: sub-fields in table order', 'for x in self._multivalued_fields[key.lower()]: item[x]')
     else:
         rep.fail('C12.R2', fw.site, 'writer: sub-fields in table order', 'the writer does not emit the sub-fields in the order of the table entry the reader uses', where=fw.where)
-    # multi-line detection keys on the newline the writer puts first
-    f1 = src.func(MOD + ':Deb822.is_single_line')
-    f2 = src.func(MOD + ':Deb822.is_multi_line')
-    t1, t2 = norm(f1.node.body[-1]), norm(f2.node.body[-1])
-    if "count('\\n')" in t1 and t1.startswith('return not') and 'is_single_line' in t2 and t2.startswith('return not'):
-        rep.ok('C12.R2', f2.site, 'multi-line detection', 'value contains a newline', nontrivial=False)
-    else:
-        rep.fail('C12.R2', f2.site, 'multi-line detection', 'is_multi_line no longer means "contains a newline"', where=f2.where)
-    uses = [c for c in ast.walk(fr.node) if isinstance(c, ast.Call) and norm(c.func).endswith('is_multi_line')]
-    if uses:
-        blk = uses[0]._parent
-        if isinstance(blk, ast.If) and '[]' in norm(blk.body[0]) and blk.orelse and 'Deb822Dict()' in norm(blk.orelse[0]):
-            rep.ok('C12.R2', fr.site, 'list for multi-line, record for single-line', 'if is_multi_line: [] else: Deb822Dict()', nontrivial=False)
-        else:
-            rep.fail('C12.R2', fr.site, 'list for multi-line, record for single-line', 'the container choice does not follow is_multi_line', where=fr.where)
+    # (which texts the reader takes for a record list and which for a single record, and that this is what the writer lays out, is
+    # decided on languages by C12.R5)
 
 
 def r3_tables(rep, src):
@@ -803,6 +901,33 @@ def r4_size_column(rep, src):
                 rep.ok('C12.R4', f.site, 'dak width', 'max(len(str(item[size])))')
             else:
                 rep.fail('C12.R4', f.site, 'dak width', 'width for dak is computed as %r instead of the longest size present' % (got.get('dak'),), where=f.where)
+        # the width of an empty record list, and of a field that holds a single record
+        fin, _i = normalize.inline_helpers(f)
+        bare_max = [c for c in ast.walk(fin) if isinstance(c, ast.Call) and norm(c.func) in ('max', 'min') and len(c.args) == 1 and not any(k.arg == 'default' for k in c.keywords)]
+        guarded_max = [c for c in bare_max if any(isinstance(a_, ast.Try) and any(h_.type is None or 'ValueError' in norm(h_.type) or 'Exception' in norm(h_.type) for h_ in a_.handlers)
+                                                  for a_ in _anc(c))
+                       or any(isinstance(a_, ast.If) and any(isinstance(n_, (ast.Name, ast.Subscript)) and norm(n_) in norm(c.args[0]) for n_ in ast.walk(a_.test)) and c in list(ast.walk(ast.Module(body=a_.body, type_ignores=[])))
+                              for a_ in _anc(c))]
+        if [c for c in bare_max if c not in guarded_max]:
+            c = [c for c in bare_max if c not in guarded_max][0]
+            rep.fail('C12.R4', f.site, 'width of an empty record list', '`%s` raises ValueError when the field holds no record: a paragraph whose structured field is the empty list '
+                     'cannot be dumped' % norm(c)[:60], where='%s:%d' % (f.module.relpath, c.lineno))
+        else:
+            rep.ok('C12.R4', f.site, 'width of an empty record list', 'no maximum of a possibly empty sequence without default')
+        pw = m.method(cname, '_fixed_field_lengths')
+        gw = cfg.CFG(pw.node)
+        wcalls = [c for c in ast.walk(pw.node) if isinstance(c, ast.Call) and isinstance(c.func, ast.Attribute) and c.func.attr == '_get_size_field_length']
+        if not wcalls:
+            raise AnalysisError('%s: no call of _get_size_field_length' % pw.site)
+        single_tests = [n_ for n_ in gw.nodes if n_.kind == 'test' and (("hasattr(" in norm(n_.ast) and "'keys'" in norm(n_.ast)) or 'isinstance(' in norm(n_.ast))]
+        handles_mapping = any(("hasattr(" in norm(t_) and "'keys'" in norm(t_)) or 'isinstance(' in norm(t_) for t_ in ast.walk(fin) if isinstance(t_, (ast.If, ast.IfExp)) for t_ in [t_.test])
+        okw = all(any(gw.dominates(t_.id, gw.node_for(c).id) for t_ in single_tests) for c in wcalls) or handles_mapping
+        if okw:
+            rep.ok('C12.R4', pw.site, 'a field holding a single record gets no column width', 'the width computation is skipped for (or handles) a mapping value')
+        else:
+            rep.fail('C12.R4', pw.site, 'a field holding a single record gets no column width', 'the width of the size column is computed by iterating the value of every '
+                     'structured field as a list of records; a field that holds one record (a mapping: "MD5Sum: <sum> <size> <name>" on the field line) is iterated key by key '
+                     'and the dump raises TypeError (the sibling class tests hasattr(value, "keys") first)', where=pw.where)
         # _fixed_field_lengths stores it under "size" for the present keys
         p = m.method(cname, '_fixed_field_lengths')
         dicts = [d for d in ast.walk(p.node) if isinstance(d, ast.Dict) and len(d.keys) == 1 and isinstance(d.keys[0], ast.Constant) and d.keys[0].value == 'size']
@@ -862,9 +987,11 @@ def check(src, rep, tier):
     rep.need('C12.R2', 20)
     rep.need('C12.R3', 20)
     rep.need('C12.R4', 6)
+    rep.need('C12.R5', 3)
     M = Model(src, rep)
     rep.guard('C12.R1', r1_optional_fields, src)
     rep.guard('C12.R2', r2_roundtrip, src, M)
     rep.guard('C12.R2', r2b_same_table, src)
     rep.guard('C12.R3', r3_tables, src)
     rep.guard('C12.R4', r4_size_column, src)
+    rep.guard('C12.R5', r5_container_kind, src, M)
